@@ -815,6 +815,8 @@ fn est_event_with<D: Distance<P, f64>>(
         "backend": c.backend, "weight": c.weight, "k": c.k, "n": c.x.len(), "order": c.order,
         "wBeforeD": match (c.order.find(|ch| ch == 'w' || ch == 'F'), c.order.find('d')) { (Some(a), Some(b)) => a < b, _ => false },
         "viaFields": c.order.contains('F'), "defaultMetric": !c.order.contains('d'),
+        "signedZeroLabels": c.kind == "cls" && c.y.iter().any(|v| *v == 0.0 && v.is_sign_negative()) && c.y.iter().any(|v| *v == 0.0 && v.is_sign_positive()),
+        "negZeroAt": c.y.iter().enumerate().filter(|(_, v)| **v == 0.0 && v.is_sign_negative()).map(|(i, _)| i).collect::<Vec<_>>(),
         "api": c.api, "batchLen": if c.batch_len == 0 { c.qs.len() } else { c.batch_len },
         "u": 2, "ident": c.x.iter().all(|r| *r == c.x[0]),
         "X": c.x.iter().map(|r| to_i(r, 2)).collect::<Vec<_>>(), "y": to_i(c.y, 1)});
@@ -939,8 +941,12 @@ fn gen_est(outp: &str) {
         } else {
             (0..n).map(|_| (0..dims).map(|_| rng.gen_range(0..=v) as f64).collect()).collect()
         };
-        let labels: Vec<f64> = { let mut l = vec![-3.0, 5.0, 10.0]; l.shuffle(&mut rng); l.truncate(rng.gen_range(2..=3)); l };
-        let ycls: Vec<f64> = (0..n).map(|_| *labels.choose(&mut rng).unwrap()).collect();
+        // every fourth group labels one class 0, written as +0.0 or -0.0 at random: the two are
+        // the same label value (the event carries the integer 0 for both)
+        let zero_labels = g % 4 == 3;
+        let labels: Vec<f64> = if zero_labels { vec![0.0, 1.0, 5.0][..rng.gen_range(2..=3)].to_vec() }
+            else { let mut l = vec![-3.0, 5.0, 10.0]; l.shuffle(&mut rng); l.truncate(rng.gen_range(2..=3)); l };
+        let ycls: Vec<f64> = (0..n).map(|_| { let v = *labels.choose(&mut rng).unwrap(); if v == 0.0 && rng.gen_bool(0.5) { -0.0 } else { v } }).collect();
         let yreg: Vec<f64> = (0..n).map(|_| rng.gen_range(-8..=8i64) as f64).collect();
         // queries (half units on the spec side): training rows, lattice points, half-integer points
         let mut qs: Vec<P> = vec![x[rng.gen_range(0..n)].clone()];
@@ -1157,7 +1163,10 @@ fn rerun(inp: &str, outp: &str) {
             redone += 1;
         } else if evn == "KnnPredict" {
             let x: Vec<P> = e["X"].as_array().unwrap().iter().map(|p| to_f(&ivec(p), 2)).collect();
-            let y: Vec<f64> = ivec(&e["y"]).iter().map(|&v| v as f64).collect();
+            let mut y: Vec<f64> = ivec(&e["y"]).iter().map(|&v| v as f64).collect();
+            for i in ivec(&e["negZeroAt"]) {
+                y[i as usize] = -0.0;
+            }
             let m = match e["metric"].as_str().unwrap_or("") {
                 "man" => Metric::Man,
                 "euc" => Metric::Euc,
@@ -1260,15 +1269,20 @@ fn gen_deep(outp: &str) {
     // ---- multi-scale
     let reps = if thorough() { 6 } else { 2 };
     for rep in 0..reps {
-        for &e in &[20i32, 40, 45, 50] {
+        for &e in &[20i32, 40, 45, 50, 55, 60, 70] {
             for dims in 1..=2usize {
                 let extent = [4.0, 16.0, 1.0][(rep + dims) % 3];
                 let s = extent * 2f64.powi(-e);
                 let g = rng.gen_range(3..=8usize);
-                let centre: P = (0..dims).map(|_| extent * [0.5, 0.25, 0.75][rng.gen_range(0..3)]).collect();
+                // spacings below the resolution of the doubles near 0.5 are only representable
+                // around the origin: there the ABSOLUTE distances inside the group drop below
+                // machine epsilon while the points stay distinct
+                let at_origin = e >= 50 || (rep + dims) % 2 == 0;
+                let centre: P = (0..dims).map(|_| if at_origin { 0.0 } else { extent * [0.5, 0.25, 0.75][rng.gen_range(0..3)] }).collect();
                 let group: Vec<P> = (0..g).map(|j| centre.iter().enumerate()
                     .map(|(a, &c)| c + s * if a == 0 { j as f64 } else { ((j * j) % 3) as f64 }).collect()).collect();
-                let far: Vec<P> = (0..rng.gen_range(2..=6)).map(|_| (0..dims).map(|_| (rng.gen_range(0..=4) as f64) * extent / 4.0).collect()).collect();
+                let far: Vec<P> = (0..rng.gen_range(2..=6)).map(|_| (0..dims).map(|_| (rng.gen_range(-2..=4) as f64) * extent / 4.0).collect())
+                    .filter(|p: &P| p.iter().any(|&v| v != 0.0)).chain(std::iter::once(vec![extent; dims])).collect();
                 let mut data: Vec<P> = match rep % 3 {
                     0 => far.iter().chain(group.iter()).cloned().collect(),
                     1 => group.iter().chain(far.iter()).cloned().collect(),
@@ -1344,6 +1358,9 @@ fn gen_estbig(outp: &str) {
                     for kind in ["cls", "reg"] {
                         if kind == "cls" && k == 1 { continue; }
                         run += 1;
+                        // quick tier: a third of the combinations (rotating, so that every
+                        // backend / weighting / kind occurs at every size)
+                        if !thorough() && (run as usize + ki + si) % 3 != 0 { continue; }
                         let order = ORDERS_D[rng.gen_range(0..26)];
                         let c = EstCase { run, kind, metric: Metric::Man, backend: b, weight: w, k, x: &x,
                             y: if kind == "cls" { &ycls } else { &yreg }, qs: &qs, order,
